@@ -2496,6 +2496,10 @@ public:
         packedWord = 0;
       }
     }
+    if (value.empty()) {
+      // An empty string is a single word holding the zero length.
+      genData(packedWord);
+    }
     // Load the address of the string.
     switch (reg) {
     case Reg::A: genLDAC(label); break;
